@@ -224,19 +224,7 @@ func (ir *ifdReader) warnTagType(t Tag) {
 }
 
 // ParseUint16 parses a uint16 value.""")])]
-V['N26-readexif-order']=[('jpeg/jpeg.go',[("""	var buf []byte
-	remain := int(jr.size) - exifPrefixLength
-
-	if err = jr.discard(2 + exifPrefixLength); err != nil {
-		return err
-	}
-""","""	var buf []byte
-
-	if err = jr.discard(2 + exifPrefixLength); err != nil {
-		return err
-	}
-	remain := int(jr.size) - exifPrefixLength
-""")])]
+# N26 (reordered locals in readExif) was dropped: its pattern vanished with fix 8fc3ad1
 V['N27-close-var-isobmff']=[('isobmff/iprp.go',[("""		if err = inner.close(); err != nil && logLevelError() {
 			logError().Object("box", inner).Err(err).Send()
 		}
@@ -356,6 +344,46 @@ V['N41-guarded-narrow-stringer']=[('meta/exifTypes.go',[("""	if int(mm) < len(_M
 			return _MeteringModeName[_MeteringModeIndex[i]:_MeteringModeIndex[i+1]]
 		}
 	}""")])]
+
+V['N42-queue-full-early-return']=[('exif2/buffer.go',[("""	b := ir.buffer
+	if b.len < tagMaxCount {
+		for i := b.len; i > 0; i-- {""","""	b := ir.buffer
+	if b.len >= tagMaxCount {
+		if ir.logLevelWarn() {
+			ir.logWarn().Int32("tagMaxCount", tagMaxCount).Msg("error tagMaxCount is too short")
+		}
+		return
+	}
+	if b.len < tagMaxCount {
+		for i := b.len; i > 0; i-- {""")])]
+V['N43-nikon-ifd-local']=[('exif2/reader.go',[("""					err = ir.readIfdHeader(ifds.NewIFD(byteOrder, ifds.MknoteIFD, t.IfdIndex, t.ValueOffset, t.ValueOffset+byteOrder.Uint32(buf[14:18])))""","""					mkIfd := ifds.NewIFD(byteOrder, ifds.MknoteIFD, t.IfdIndex, t.ValueOffset, t.ValueOffset+byteOrder.Uint32(buf[14:18]))
+					err = ir.readIfdHeader(mkIfd)""")])]
+V['N44-marshaltext-append']=[('meta/exifTypes.go',[("""func (em ExposureMode) MarshalText() (text []byte, err error) {
+	return unsafeGetBytes(em.String()), nil
+}""","""func (em ExposureMode) MarshalText() (text []byte, err error) {
+	return append([]byte(nil), em.String()...), nil
+}""")])]
+V['N45-png-own-bufio']=[('imagemeta.go',[("""	rr := readerPool.Get().(*bufio.Reader)
+	rr.Reset(r)
+	defer readerPool.Put(rr)
+
+	if err := ir.DecodeTiff(rr, header); err != nil {
+		return ir.Exif, err
+	}
+
+	return ir.Exif, nil
+}
+
+// PreviewCR3""","""	rr := bufio.NewReaderSize(r, 4*1024)
+
+	if err := ir.DecodeTiff(rr, header); err != nil {
+		return ir.Exif, err
+	}
+
+	return ir.Exif, nil
+}
+
+// PreviewCR3""")])]
 
 def build(name, edits, out):
     d=tempfile.mkdtemp(prefix='imverif-neutral-',dir='/var/tmp')
